@@ -156,7 +156,7 @@ pub fn run(ctx: &mut Ctx) {
     }
     if ctx.tier == crate::Tier::Thorough && ctx.violations().is_empty() {
         let t = Tables::build();
-        for bytes in crate::fuzzrun::campaign(ctx, "vm_diff", 16, 600000, 768) {
+        for bytes in crate::fuzzrun::campaign(ctx, "vm_diff", 16, 100_000, 768) {
             let c = crate::fuzzdec::decode_vm(&bytes, &t);
             let mut p = Probe::default();
             let opts = crate::vm_oracle::VmOpts { sweep: true, full_sweep_upto: 24, labels: false };
